@@ -8,7 +8,7 @@
    correspondence of this model with the implementation (tools/props/c02.py). *)
 From Coq Require Import ZArith List Bool.
 From Coq Require Import Permutation.
-Require Import PyLib SuiteTypes Crypto KeySchedule QuicKeys QuicPn QuicDissector QuicFrames QuicTls QuicSession TlsRecords QuicPackets QuicBuildP QuicEpochP QuicCryptoP C17RoundP QuicShortP QuicLongPackets QuicLongP QuicInitialP QuicZeroRttP.
+Require Import PyLib SuiteTypes Crypto KeySchedule QuicKeys QuicPn QuicDissector QuicFrames QuicTls QuicSession TlsRecords QuicPackets QuicBuildP QuicEpochP QuicCryptoP C17RoundP QuicShortP QuicLongPackets QuicLongP QuicInitialP QuicZeroRttP QuicHelloP.
 Import ListNotations.
 Open Scope Z_scope.
 
@@ -184,3 +184,23 @@ Theorem C02_zero_rtt_datagram : forall C, CryptoLaws C -> forall keylog ftable (
                                                               | _ => [] end) fs.
 Proof. exact zero_rtt_datagram. Qed.
 Print Assumptions C02_zero_rtt_datagram.
+
+(* ---------------- the hellos inside the CRYPTO stream ---------------- *)
+(* What the QUIC TLS parser keeps from a ClientHello / ServerHello message encoded per RFC 8446 4.1.2 / 4.1.3, with any session id,
+   any offered suites, any compression methods and extensions: the client random, and the cipher suite -- the FIRST OFFERED one after
+   the ClientHello (what the early keys are derived for: the open finding), the selected one after the ServerHello.  These are the
+   two values set_tls_decryptors is called with (C15_quic_*, C04_own_keylog_lines_quic). *)
+Theorem C02_quic_client_hello : forall q (l3 hv random sid f others cms rest : bytes),
+  len l3 = 3 -> from_be l3 = len (hv ++ random ++ [len sid] ++ sid ++ to_be_total (len (f ++ others)) 2 ++ (f ++ others) ++ [len cms] ++ cms ++ rest) ->
+  len hv = 2 -> len random = 32 -> len sid < 256 -> len f = 2 -> len (f ++ others) < 65536 -> len cms < 256 ->
+  let msg := [1] ++ l3 ++ hv ++ random ++ [len sid] ++ sid ++ to_be_total (len (f ++ others)) 2 ++ (f ++ others) ++ [len cms] ++ cms ++ rest in
+  exists q', handle_client_hello q msg = (q', true) /\ qt_ciphersuite q' = Some f /\ qt_client_random q' = Some random /\ qt_new_data q' = true.
+Proof. exact quic_client_hello. Qed.
+Print Assumptions C02_quic_client_hello.
+
+Theorem C02_quic_server_hello : forall q (l3 hv random sid suite rest : bytes) comp,
+  len l3 = 3 -> len hv = 2 -> len random = 32 -> len sid < 256 -> len suite = 2 -> 2 <= len sid + len rest ->
+  let msg := [2] ++ l3 ++ hv ++ random ++ [len sid] ++ sid ++ suite ++ [comp] ++ rest in
+  exists q', handle_server_hello q msg = (q', true) /\ qt_ciphersuite q' = Some suite /\ qt_client_random q' = qt_client_random q /\ qt_new_data q' = true.
+Proof. exact quic_server_hello. Qed.
+Print Assumptions C02_quic_server_hello.
